@@ -469,8 +469,8 @@ def run(ctx):
                 ("rich", small, [(1, 1)], list(range(-2, 3)), 1, "few", True),
                 ("pairs", small + [(3, 2)], [(0, 0)], list(range(-2, 3)), 2, "two", False),
                 ("deep", ALL_SHAPES, [(0, 0), (-1, 0)], [0, 1], 3, "two", False)]
-        n_random = 1500
-        util_every = 3
+        n_random = 1000
+        util_every = 4
     ctx.bounds = {"tlc_runs": [{"name": r[0], "shapes": r[1], "origins_half_px": r[2], "multipliers": r[3], "max_baselines": r[4],
                                 "masks": r[5], "rich_inputs": r[6]} for r in runs],
                   "values": "images, matrices -2..2; visibilities Gaussian integers |.|<=2; noise 2^-1..2^1 per part",
